@@ -8,7 +8,7 @@ THEOREMS = ["proj_of_tuple", "proj_of_list", "proj_of_dict_key", "proj_of_dict_a
 RULE = (
     "generated pack chains (harness/simplify.py: gen_packchain): 2-5 Select/Where/SelectMany stages over ds in function "
     "form; every intermediate stage packages leaf expressions into a random nesting (depth <= 2) of tuples, lists and "
-    "dictionaries, every later stage takes them apart with constant indices / keys / attribute names only; SelectMany "
+    "dictionaries, or into the First(...) of a nested Select that builds such packs, every later stage takes them apart with constant indices / keys / attribute names only; SelectMany "
     "stages whose lambda contains a nested Select referring to other packaged fields; binder names all-distinct, "
     "all-identical or random; the last stage returns a plain value (then nothing may survive) or a pack (allowed only "
     "as the final result); non-trivial = every chain; distinct = source text"
